@@ -16,5 +16,7 @@ theorem flag_cloneCarriesId : cloneCarriesId = true := by decide +kernel
 theorem flag_commitClosureOrder : commitClosureOrder = true := by decide +kernel
 theorem flag_delegateInsideLatch : delegateInsideLatch = true := by decide +kernel
 theorem flag_computedAfterColumn : computedAfterColumn = true := by decide +kernel
+/-- the log-file form of the change stream: `Log.Append` writes and flushes a commit under the log mutex, released by a `defer` -/
+theorem flag_appendCopyShareMutex : appendCopyShareMutex = true := by decide +kernel
 
 end ColumnVerif.Props.C06skel
